@@ -85,10 +85,13 @@ ApplyOp(v, o) ==
             [kind |-> o.kind, status |-> o.st, author |-> o.by,
              revs |-> IF o.kind = "patch" THEN (o.id :> "live") ELSE <<>>,
              revby |-> IF o.kind = "patch" THEN (o.id :> o.by) ELSE <<>>,
-             comments |-> <<>>, reviews |-> <<>>]
+             comments |-> <<>>, reviews |-> <<>>,
+             merged |-> 0]                       \* the revision that was merged, if any
       [] o.k = "revision" -> [v EXCEPT !.revs = Put(@, o.id, "live"), !.revby = Put(@, o.id, o.by)]
       [] o.k = "redactRev" ->
-            \* the revision becomes `null`; its discussion and reviews go with it
+            \* the revision becomes `null`; its discussion and reviews go with it.
+            \* A merged revision is not redacted: the action is accepted and ignored.
+            IF o.arg = v.merged THEN v ELSE
             [v EXCEPT !.revs = Put(@, o.arg, "redacted"),
                       !.comments = Drop(@, {c \in DOMAIN @ : @[c].rev = o.arg}),
                       !.reviews  = Drop(@, {r \in DOMAIN @ : @[r].rev = o.arg})]
@@ -97,7 +100,11 @@ ApplyOp(v, o) ==
       [] o.k = "review" -> [v EXCEPT !.reviews = Put(@, o.id, [rev |-> o.arg, by |-> o.by])]
       [] o.k = "reviewComment" ->
             [v EXCEPT !.comments = Put(@, o.id, [rev |-> v.reviews[o.arg].rev, state |-> "live", by |-> o.by])]
-      [] o.k = "status" -> [v EXCEPT !.status = o.st]
+      \* the merge is of the latest revision of the patch author (`Patch::latest`)
+      [] o.k = "status" -> [v EXCEPT !.status = o.st,
+                                     !.merged = IF o.st = "merged"
+                                                THEN MaxOf({r \in DOMAIN v.revs : v.revs[r] = "live" /\ v.revby[r] = v.author})
+                                                ELSE @]
 
 RECURSIVE Eval(_, _)
 Eval(h, n) == IF n = 0 THEN None ELSE ApplyOp(Eval(h, n - 1), h[n])
